@@ -2,10 +2,13 @@
   C20 — Signing uses the caller's own key under any thread interleaving.
   Property theorems only (plus non-vacuity examples); the invariant lemmas are in Proofs/C20.lean.
 
-  All statements quantify over ARBITRARY thread sets (any number of threads, any programs, threads
-  may share an entity key), arbitrary algorithm tables and ARBITRARY schedules (any list of thread
-  numbers, any length): proof by induction over the schedule with the invariant "a thread that is
-  between get_signer and sign holds a signer object carrying its own entity's key".
+  All statements quantify over ARBITRARY thread sets (any number of threads, any programs made of
+  sign / verify / entity set-up operations, threads may share an entity key), arbitrary algorithm
+  tables and ARBITRARY schedules (any list of thread numbers, any length): proof by induction over
+  the schedule with the invariant "a thread that is between get_signer and sign holds a signer object
+  carrying the key of the entity it currently acts for".  The model of the repaired code has no shared
+  signing state, no shared verification state and no state keyed by key-file path; the theorems say
+  what follows from that for every history, the correspondence run checks that the code is like that.
 -/
 import PysamlModel.Model.Signer
 import PysamlModel.Spec.C20
@@ -19,22 +22,27 @@ variable {κ α μ : Type} [DecidableEq κ] [DecidableEq α] [DecidableEq μ]
 /-! ### The property -/
 
 /-- Whatever the tables, the threads, their programs and the interleaving: a signature reported by
-    thread `t` is exactly the signature of `t`'s own entity key over `t`'s own octets with the
-    digest of the algorithm named in the URL. -/
+    thread `t` for its operation number `i` belongs to a sign operation of its program and is exactly
+    the signature of the key of the entity `t` acts for at that point (initial entity, or the one it most
+    recently set up: the content of the key file at set-up time) over `t`'s own octets with the digest
+    of the algorithm named in the URL. -/
 theorem C20_signature_exact (tb : Tables α) (threads : List (Thread κ α μ)) (sched : List Nat)
-    (t : Nat) (alg : α) (msg : μ) (s : Sig κ α μ)
-    (h : (t, Event.signed alg msg s) ∈ (run tb threads sched).out) :
-    ∃ th : Thread κ α μ, threads[t]? = some th ∧ s = ⟨th.key, alg, msg⟩ :=
-  (inv_run tb threads sched).sigs t alg msg s h
+    (t i : Nat) (alg : α) (msg : μ) (s : Sig κ α μ)
+    (h : (t, i, Event.signed alg msg s) ∈ (run tb threads sched).out) :
+    ∃ th : Thread κ α μ, threads[t]? = some th ∧ th.prog[i]? = some (.sign alg msg) ∧
+      s = ⟨keyAfter th.key (th.prog.take i), alg, msg⟩ := by
+  obtain ⟨th, hth, hev⟩ := (inv_run tb threads sched).events t i _ h
+  exact ⟨th, hth, hev.1, hev.2⟩
 
 /-- C20: every signature produced verifies under the certificate of the entity that made the call
     and under no other key, for every schedule (any number of threads, any length). -/
 theorem C20_own_key (tb : Tables α) (threads : List (Thread κ α μ)) (sched : List Nat)
-    (t : Nat) (alg : α) (msg : μ) (s : Sig κ α μ)
-    (h : (t, Event.signed alg msg s) ∈ (run tb threads sched).out) :
-    ∃ th : Thread κ α μ, threads[t]? = some th ∧ verifies th.key alg msg s = true ∧
-      ∀ k, k ≠ th.key → verifies k alg msg s = false := by
-  obtain ⟨th, hth, hs⟩ := C20_signature_exact tb threads sched t alg msg s h
+    (t i : Nat) (alg : α) (msg : μ) (s : Sig κ α μ)
+    (h : (t, i, Event.signed alg msg s) ∈ (run tb threads sched).out) :
+    ∃ th : Thread κ α μ, threads[t]? = some th ∧
+      verifies (keyAfter th.key (th.prog.take i)) alg msg s = true ∧
+      ∀ k, k ≠ keyAfter th.key (th.prog.take i) → verifies k alg msg s = false := by
+  obtain ⟨th, hth, _, hs⟩ := C20_signature_exact tb threads sched t i alg msg s h
   refine ⟨th, hth, (verifies_iff _ _ _ _).mpr hs, ?_⟩
   intro k hk
   cases hv : verifies k alg msg s with
@@ -45,115 +53,130 @@ theorem C20_own_key (tb : Tables α) (threads : List (Thread κ α μ)) (sched :
     cases this
     exact absurd rfl hk
 
-/-- In particular no OTHER thread's entity (one with a different key) can verify it, and threads
-    of the same entity produce signatures of that entity. -/
+/-- In particular no OTHER thread's entity (one with a different key at any point of its program) can
+    verify it; threads of one entity produce signatures of that entity. -/
 theorem C20_no_other_thread (tb : Tables α) (threads : List (Thread κ α μ)) (sched : List Nat)
-    (t t' : Nat) (th th' : Thread κ α μ) (alg : α) (msg : μ) (s : Sig κ α μ)
-    (ht : threads[t]? = some th) (_ht' : threads[t']? = some th') (hne : th'.key ≠ th.key)
-    (h : (t, Event.signed alg msg s) ∈ (run tb threads sched).out) :
-    verifies th'.key alg msg s = false := by
-  obtain ⟨th0, hth0, _, hno⟩ := C20_own_key tb threads sched t alg msg s h
+    (t t' i j : Nat) (th th' : Thread κ α μ) (alg : α) (msg : μ) (s : Sig κ α μ)
+    (ht : threads[t]? = some th) (_ht' : threads[t']? = some th')
+    (hne : keyAfter th'.key (th'.prog.take j) ≠ keyAfter th.key (th.prog.take i))
+    (h : (t, i, Event.signed alg msg s) ∈ (run tb threads sched).out) :
+    verifies (keyAfter th'.key (th'.prog.take j)) alg msg s = false := by
+  obtain ⟨th0, hth0, _, hno⟩ := C20_own_key tb threads sched t i alg msg s h
   rw [ht] at hth0
   cases hth0
-  exact hno th'.key hne
+  exact hno _ hne
+
+/-- Verification: the verdict reported for a call that is given a certificate is a function of
+    (signature, certificate, claimed algorithm and octets) alone — for every schedule, whichever
+    entity's backend does the checking and whatever was verified before: it is never `true` unless the
+    signature was made by that certificate's key pair (no other entity's certificate accepts it), and
+    it is `true` when it was, provided the algorithm has a signer entry. -/
+theorem C20_verify_verdict (tb : Tables α) (threads : List (Thread κ α μ)) (sched : List Nat)
+    (t i : Nat) (ok : Bool) (h : (t, i, Event.verified ok) ∈ (run tb threads sched).out) :
+    ∃ (th : Thread κ α μ) (alg : α) (msg : μ) (sig : Sig κ α μ) (cert sk : Option κ),
+      threads[t]? = some th ∧ th.prog[i]? = some (.verify alg msg sig cert sk) ∧
+      ∀ c, cert = some c → (ok = true → verifies c alg msg sig = true) ∧
+        (tb.hasSigner alg = true → ok = verifies c alg msg sig) := by
+  obtain ⟨th, hth, alg, msg, sig, cert, sk, hop, hv⟩ := (inv_run tb threads sched).events t i _ h
+  exact ⟨th, alg, msg, sig, cert, sk, hth, hop, hv⟩
 
 /-- The repaired design never reaches the `crashed` outcome (a signer object always has a key). -/
-theorem C20_never_crashes (tb : Tables α) (threads : List (Thread κ α μ)) (sched : List Nat) (t : Nat) :
-    (t, Event.crashed) ∉ (run tb threads sched).out := by
-  suffices hs : ∀ (g : State κ α μ), (t, Event.crashed) ∉ g.out →
-      (t, Event.crashed) ∉ (sched.foldl (step tb) g).out from hs _ (by simp [init])
-  induction sched with
-  | nil => intro g hg; exact hg
-  | cons u rest ih =>
-    intro g hg
-    apply ih
-    unfold step
-    split
-    · exact hg
-    next st _ =>
-      split
-      · exact hg
-      next st' b ev hstep =>
-        simp only
-        intro hmem
-        rcases List.mem_append.mp hmem with hold | hnew
-        · exact hg hold
-        · unfold stepThread at hstep
-          repeat' split at hstep
-          all_goals cases hstep
-          all_goals simp at hnew
+theorem C20_never_crashes (tb : Tables α) (threads : List (Thread κ α μ)) (sched : List Nat) (t i : Nat) :
+    (t, i, Event.crashed) ∉ (run tb threads sched).out := by
+  intro h
+  obtain ⟨_, _, hev⟩ := (inv_run tb threads sched).events t i _ h
+  exact hev
 
 /-! ### Link to the decidable specification evaluated on the implementation's output -/
 
-/-- What `specOk` means. -/
-theorem C20_spec_iff (keys : List κ) (obs : List (Nat × Obs κ)) :
-    specOk keys obs = true ↔
-      ∀ t o, (t, o) ∈ obs → ∃ own, keys[t]? = some own ∧
-        ∀ vs, o = .signed vs → own ∈ vs ∧ ∀ k ∈ vs, k = own := by
-  unfold specOk
-  rw [List.all_eq_true]
+/-- Reading of the checker for signatures: accepted only for a sign operation, with the caller's key
+    among the verifiers and no other key. -/
+theorem C20_spec_signed (tb : Tables α) (own : κ) (op : Op κ α μ) (vs : List κ)
+    (h : specOp tb own op (.signed vs) = true) :
+    (∃ alg msg, op = .sign alg msg) ∧ own ∈ vs ∧ ∀ k ∈ vs, k = own := by
+  cases op with
+  | sign alg msg =>
+    simp only [specOp, Bool.and_eq_true, List.contains_iff_mem, List.all_eq_true, decide_eq_true_eq] at h
+    exact ⟨⟨alg, msg, rfl⟩, h.1, h.2⟩
+  | verify alg msg sig cert sk => cases cert <;> simp [specOp] at h
+  | setup p c => simp [specOp] at h
+
+/-- Reading of the checker for verdicts under a certificate. -/
+theorem C20_spec_verified (tb : Tables α) (own c : κ) (alg : α) (msg : μ) (sig : Sig κ α μ)
+    (sk : Option κ) (ok : Bool)
+    (h : specOp tb own (.verify alg msg sig (some c) sk) (.verified ok) = true) :
+    (ok = true → verifies c alg msg sig = true) ∧
+      (tb.hasSigner alg = true → verifies c alg msg sig = true → ok = true) := by
+  simp only [specOp, Bool.and_eq_true, Bool.or_eq_true, Bool.not_eq_true', Bool.and_eq_false_imp] at h
   constructor
-  · intro h t o hmem
-    have := h (t, o) hmem
-    simp only at this
-    cases hk : keys[t]? with
-    | none => simp [hk] at this
-    | some own =>
-      refine ⟨own, rfl, ?_⟩
-      intro vs ho
-      subst ho
-      simp [hk, specEvent] at this
-      exact this
-  · intro h p hmem
-    obtain ⟨own, hk, hvs⟩ := h p.1 p.2 hmem
-    simp only [hk]
-    cases ho : p.2 with
-    | signed vs =>
-      obtain ⟨h1, h2⟩ := hvs vs ho
-      simp [specEvent, h1]
-      exact h2
-    | refused => rfl
-    | crashed => rfl
-    | verified ok => rfl
+  · intro hok
+    rcases h.1 with h1 | h1
+    · rw [hok] at h1; cases h1
+    · exact h1
+  · intro hs hv
+    rcases h.2 with h2 | h2
+    · have := h2 hs; rw [hv] at this; cases this
+    · exact h2
 
 /-- The model's observable satisfies the specification for every thread set, every bystander key
     list and every schedule (hence also for the completed schedules the driver runs). -/
 theorem C20_model_meets_spec (tb : Tables α) (threads : List (Thread κ α μ)) (extra : List κ)
     (sched : List Nat) :
-    specOk (threads.map (·.key)) (observe (certUniverse threads extra) (run tb threads sched).out) = true := by
-  rw [C20_spec_iff]
-  intro t o hmem
+    specOk tb threads (observe (certUniverse threads extra) (run tb threads sched).out) = true := by
+  unfold specOk
+  rw [List.all_eq_true]
+  intro p hmem
   unfold observe at hmem
-  obtain ⟨⟨t', e⟩, he, heq⟩ := List.mem_map.mp hmem
-  simp only [Prod.mk.injEq] at heq
-  obtain ⟨ht, ho⟩ := heq
-  subst ht
-  -- the thread exists: every event comes from a thread state of that number
+  obtain ⟨⟨t, i, e⟩, he, heq⟩ := List.mem_map.mp hmem
+  subst heq
+  obtain ⟨th, hth, hev⟩ := (inv_run tb threads sched).events t i e he
+  simp only [specEntry, hth]
   cases e with
   | signed alg msg s =>
-    obtain ⟨th, hth, hs⟩ := C20_signature_exact tb threads sched t' alg msg s he
-    refine ⟨th.key, by simp [hth], ?_⟩
-    intro vs hvs
-    rw [← ho] at hvs
-    simp only [observeEvent, Obs.signed.injEq] at hvs
-    subst hvs
+    obtain ⟨hop, hs⟩ := hev
+    simp only [hop, observeEvent]
     subst hs
     rw [verifiers_exact]
+    simp only [specOp, Bool.and_eq_true, List.contains_iff_mem, List.all_eq_true, decide_eq_true_eq]
     constructor
     · simp only [List.mem_filter, decide_eq_true_eq, and_true]
       unfold certUniverse
-      exact List.mem_append_left _ (List.mem_map.mpr ⟨th, List.mem_of_getElem? hth, rfl⟩)
+      apply List.mem_append_left
+      rw [List.mem_flatMap]
+      refine ⟨th, List.mem_of_getElem? hth, ?_⟩
+      rcases keyAfter_mem th.key (th.prog.take i) with hk | hk
+      · rw [hk]; exact List.mem_cons_self
+      · apply List.mem_cons_of_mem
+        obtain ⟨op, hop', hc⟩ := List.mem_filterMap.mp hk
+        exact List.mem_filterMap.mpr ⟨op, List.mem_of_mem_take hop', hc⟩
     · intro k hk
       simpa using (List.mem_filter.mp hk).2
-  | refused =>
-    obtain ⟨own, hown⟩ := event_thread_exists tb threads sched t' _ he
-    exact ⟨own, hown, by intro vs hvs; rw [← ho] at hvs; cases hvs⟩
-  | crashed =>
-    obtain ⟨own, hown⟩ := event_thread_exists tb threads sched t' _ he
-    exact ⟨own, hown, by intro vs hvs; rw [← ho] at hvs; cases hvs⟩
   | verified ok =>
-    obtain ⟨own, hown⟩ := event_thread_exists tb threads sched t' _ he
-    exact ⟨own, hown, by intro vs hvs; rw [← ho] at hvs; cases hvs⟩
+    obtain ⟨alg, msg, sig, cert, sk, hop, hv⟩ := hev
+    simp only [hop, observeEvent]
+    cases cert with
+    | none => rfl
+    | some c =>
+      obtain ⟨h1, h2⟩ := hv c rfl
+      simp only [specOp, Bool.and_eq_true, Bool.or_eq_true, Bool.not_eq_true']
+      constructor
+      · cases ok with
+        | false => left; rfl
+        | true => right; exact h1 rfl
+      · cases hs : tb.hasSigner alg with
+        | false => left; simp
+        | true =>
+          rw [h2 hs]
+          cases verifies c alg msg sig with
+          | false => left; simp
+          | true => right; rfl
+  | refused =>
+    obtain ⟨alg, msg, hop⟩ := hev
+    simp [hop, observeEvent, specOp]
+  | setupDone =>
+    obtain ⟨p', c, hop⟩ := hev
+    simp [hop, observeEvent, specOp]
+  | crashed => exact absurd hev (by simp [EventOk])
 
 /-! ### The design before the repair (F16): why the obligation exists -/
 
@@ -161,10 +184,11 @@ theorem C20_model_meets_spec (tb : Tables α) (threads : List (Thread κ α μ))
     the table entry, `sign` reads it back later). -/
 def C20_shared_design_full : Prop :=
   ∀ (tb : Tables Nat) (threads : List (Thread Nat Nat Nat)) (sched : List Nat)
-    (t alg msg : Nat) (s : Sig Nat Nat Nat),
-    (t, Event.signed alg msg s) ∈ (runSh tb threads sched).out →
-    ∃ th : Thread Nat Nat Nat, threads[t]? = some th ∧ verifies th.key alg msg s = true ∧
-      ∀ k, k ≠ th.key → verifies k alg msg s = false
+    (t i alg msg : Nat) (s : Sig Nat Nat Nat),
+    (t, i, Event.signed alg msg s) ∈ (runSh tb threads sched).out →
+    ∃ th : Thread Nat Nat Nat, threads[t]? = some th ∧
+      verifies (keyAfter th.key (th.prog.take i)) alg msg s = true ∧
+      ∀ k, k ≠ keyAfter th.key (th.prog.take i) → verifies k alg msg s = false
 
 def allAlgs : Tables Nat := { allowed := fun _ => true, hasSigner := fun _ => true }
 
@@ -176,7 +200,7 @@ def raceThreads : List (Thread Nat Nat Nat) :=
     B's key. -/
 theorem C20_shared_design_counterexample : ¬ C20_shared_design_full := by
   intro h
-  obtain ⟨th, hth, hv, _⟩ := h allAlgs raceThreads [0, 1, 0] 0 1 100 ⟨20, 1, 100⟩ (by decide)
+  obtain ⟨th, hth, hv, _⟩ := h allAlgs raceThreads [0, 1, 0] 0 0 1 100 ⟨20, 1, 100⟩ (by decide)
   have : th = ⟨10, [.sign 1 100]⟩ := by
     simp [raceThreads] at hth
     exact hth.symm
@@ -188,7 +212,7 @@ theorem C20_shared_design_counterexample : ¬ C20_shared_design_full := by
 
 /-- `C20_own_key` / `C20_signature_exact` have instances: the race schedule, run through the repaired
     design, yields A's signature under A's key (hypothesis `h` is satisfiable). -/
-example : (0, Event.signed 1 100 ⟨10, 1, 100⟩) ∈ (run allAlgs raceThreads [0, 1, 0]).out := by decide
+example : (0, 0, Event.signed 1 100 ⟨10, 1, 100⟩) ∈ (run allAlgs raceThreads [0, 1, 0]).out := by decide
 
 /-- Three entities, two operations each (sign and verify, mixed algorithms, one refused algorithm),
     fully interleaved: three signatures, each under its maker's key. -/
@@ -200,20 +224,41 @@ def threeThreads : List (Thread Nat Nat Nat) :=
 def someAlgs : Tables Nat := { allowed := fun a => a != 9, hasSigner := fun a => a != 9 }
 
 example : (run someAlgs threeThreads [0, 1, 2, 1, 2, 0, 2, 1, 0, 1, 0]).out =
-    [(1, .verified false), (2, .signed 2 300 ⟨30, 2, 300⟩), (0, .signed 1 100 ⟨10, 1, 100⟩), (2, .refused),
-     (1, .signed 1 200 ⟨20, 1, 200⟩), (0, .verified true)] := by decide
+    [(1, 0, .verified false), (2, 0, .signed 2 300 ⟨30, 2, 300⟩), (0, 0, .signed 1 100 ⟨10, 1, 100⟩),
+     (2, 1, .refused), (1, 1, .signed 1 200 ⟨20, 1, 200⟩), (0, 1, .verified true)] := by decide
+
+/-- Entity set-up inside the history: key roll-over at an unchanged path (thread 1 sets up from path 7
+    after thread 0 did, with another key) and the same content at two paths; each signature is under
+    the key of the entity set up by ITS thread.  (`C20_verify_verdict` instance: B's signature checked
+    against A's certificate by A's own backend is rejected.) -/
+def setupThreads : List (Thread Nat Nat Nat) :=
+  [⟨10, [.setup 7 11, .sign 1 100, .verify 1 200 ⟨12, 1, 200⟩ (some 11) none]⟩,
+   ⟨20, [.setup 7 12, .sign 1 200, .setup 8 11, .sign 1 201]⟩]
+
+example : (run allAlgs setupThreads [0, 1, 0, 1, 0, 1, 1, 1, 1, 0, 0]).out =
+    [(0, 0, .setupDone), (1, 0, .setupDone), (0, 1, .signed 1 100 ⟨11, 1, 100⟩),
+     (1, 1, .signed 1 200 ⟨12, 1, 200⟩), (1, 2, .setupDone), (1, 3, .signed 1 201 ⟨11, 1, 201⟩),
+     (0, 2, .verified false)] := by decide
 
 /-- `C20_no_other_thread` has instances (distinct keys, a signature in the output). -/
 example : raceThreads[0]? = some ⟨10, [.sign 1 100]⟩ ∧ raceThreads[1]? = some ⟨20, [.sign 1 200]⟩ ∧
-    (20 : Nat) ≠ 10 ∧ (0, Event.signed 1 100 ⟨10, 1, 100⟩) ∈ (run allAlgs raceThreads [0, 1, 0, 1]).out := by decide
+    (20 : Nat) ≠ 10 ∧ (0, 0, Event.signed 1 100 ⟨10, 1, 100⟩) ∈ (run allAlgs raceThreads [0, 1, 0, 1]).out := by
+  decide
 
 /-- The specification is not trivially true: it accepts the repaired design's observable and rejects
-    the shared design's observable on the race schedule, and rejects a signature nobody can verify. -/
-example : specOk [10, 20] (observe (certUniverse raceThreads [30]) (run allAlgs raceThreads [0, 1, 0, 1]).out) = true := by decide
-example : specOk [10, 20] (observe (certUniverse raceThreads [30]) (runSh allAlgs raceThreads [0, 1, 0, 1]).out) = false := by decide
-example : specOk [10, 20] [(0, Obs.signed [])] = false := by decide
-example : specOk [10, 20] [(0, Obs.signed [10, 30])] = false := by decide
-example : specOk [10, 10] [(1, Obs.signed [10, 10]), (0, .refused)] = true := by decide
+    the shared design's observable on the race schedule, a signature nobody can verify, a signature a
+    second key verifies, a foreign certificate accepting, the own certificate refusing, and a signature
+    under the key the caller's entity had BEFORE its latest set-up. -/
+example : specOk allAlgs raceThreads (observe (certUniverse raceThreads [30]) (run allAlgs raceThreads [0, 1, 0, 1]).out) = true := by decide
+example : specOk allAlgs raceThreads (observe (certUniverse raceThreads [30]) (runSh allAlgs raceThreads [0, 1, 0, 1]).out) = false := by decide
+example : specOk allAlgs raceThreads [(0, 0, Obs.signed [])] = false := by decide
+example : specOk allAlgs raceThreads [(0, 0, Obs.signed [10, 30])] = false := by decide
+example : specOk allAlgs [⟨10, [.sign 1 1]⟩, ⟨10, [.sign 9 2]⟩] [(1, 0, Obs.signed [10, 10]), (0, 0, .refused)] = true := by decide
+example : specOk allAlgs setupThreads [(0, 2, Obs.verified true)] = false := by decide
+example : specOk allAlgs [⟨10, [.verify 1 5 ⟨11, 1, 5⟩ (some 11) none]⟩] [(0, 0, Obs.verified false)] = false := by decide
+example : specOk allAlgs setupThreads [(0, 1, Obs.signed [10])] = false := by decide
+example : specOk allAlgs setupThreads (observe (certUniverse setupThreads [])
+    (run allAlgs setupThreads [0, 1, 0, 1, 0, 1, 1, 1, 1, 0, 0]).out) = true := by decide
 
 /-- The completion used by the driver finishes every program. -/
 example : (run someAlgs threeThreads (complete threeThreads [2, 2])).ts.all
